@@ -13,7 +13,9 @@
  *                                                                      by users through `remove-downtime` (ApiActions::RemoveDowntime)
  *   A <id> <fixed> <start> <end> <dur> <trigBy> <owner> <now>          add downtime d<id> (entry_time = now)
  *   R <state> <te> <now>                                               ProcessCheckResult (exec start = end = te)
- *   T <now>                                                            clock := now, Timer::VerifFireDue(now)
+ *   T <now> <fired>                                                    clock := now, Timer::VerifFireDue(now); <fired> (0|1: the
+ *                                                                      periodic start timer was among the due timers) is the
+ *                                                                      implementation's own value, an oracle input (ignored on replay)
  *   X <id> <reason 1=user 2=config owner> <now>                        Downtime::RemoveDowntime
  *   P <paused 0|1> <now>                                               the checkable loses / regains authority
  *                                                                      (ConfigObject::SetAuthority): while it is paused no
@@ -23,9 +25,8 @@
  *       ev: 1 DowntimeStart requested, 2 DowntimeEnd requested, 3 OnDowntimeTriggered, 4 OnDowntimeRemoved
  *
  * All times on the lines are relative to a per-case base (the process-wide virtual clock never runs
- * backwards, because the 5 s start timer of lib/icinga/downtime.cpp lives as long as the process): every
- * case begins at relative time 1000 with the start timer due at exactly 1000 and the "application start
- * time" (default of last_state_change) at 990.
+ * backwards, because the start timer of lib/icinga/downtime.cpp lives as long as the process): every
+ * case begins at relative time 1000 with the "application start time" (default of last_state_change) at 990.
  *
  * Modes:  gen --seed S --tier quick|thorough      seeded generator (+ a small systematic part)
  *         ops FILE                                 replay the lines of FILE (text after '|' ignored)
@@ -175,13 +176,15 @@ static void EndCase()
 	g_Obj = nullptr;
 }
 
+static int TakeStartTimerFired();
+
 static void BeginCase(bool host, int prod)
 {
 	EndCase();
-	/* Make the start timer due at relative 1000: its m_Next is at most g_Max + 5, so a pump there fires
-	 * it (no downtime exists) and re-arms it for g_Max + 10. */
+	/* The process-wide clock never runs backwards (the start timer lives as long as the process). */
 	Clock(g_Max + 5);
 	Timer::VerifFireDue(g_Max);
+	TakeStartTimerFired();
 	g_Base = g_Max + 5 - 1000;
 	Application::SetStartTime(g_Base + 990);
 	ClockRel(990);
@@ -298,11 +301,23 @@ static void DoResult(int state, long long te, long long now)
 	Observe(res == Checkable::ProcessingResult::Ok ? 1 : 0);
 }
 
+/* Oracle for "the start timer was among the timers that fired": a fixed downtime on a checkable of its own whose
+ * window contains every instant and whose trigger_time is reset after every pump.  The start timer's handler
+ * triggers it, nothing else does.  When that periodic timer is due is not part of the property. */
+static Downtime::Ptr g_Sentinel;
+
+static int TakeStartTimerFired()
+{
+	int fired = g_Sentinel->GetTriggerTime() != 0 ? 1 : 0;
+	g_Sentinel->SetTriggerTime(0);
+	return fired;
+}
+
 static void DoPump(long long now)
 {
-	printf("T %lld", now);
 	ClockRel(now);
 	Timer::VerifFireDue(g_Base + (double)now);
+	printf("T %lld %d", now, TakeStartTimerFired());
 	Observe(0);
 }
 
@@ -496,23 +511,31 @@ int main(int argc, char **argv)
 	if (!CreateViaApi(CheckCommand::TypeInstance, "c05cmd", new Dictionary({{"command", new Array({"/bin/true"})}})))
 		return 3;
 
-	/* warm-up: the first Downtime::Start of the process creates the start/orphan timers */
+	/* the sentinel (its Downtime::Start is the first of the process and creates the start/orphan timers) */
 	{
-		MakeChecker(true, 0);
+		Host::Ptr sh = new Host();
+		sh->SetName("c05-sentinel");
+		sh->Register();
+		sh->PreActivate();
+		sh->Activate();
+		sh->SetAuthority(true);
+		sh->OnAllConfigLoaded();
 		Downtime::Ptr d = new Downtime();
-		d->SetHostName(g_HostName);
-		d->SetName(DtName(0));
+		d->SetHostName("c05-sentinel");
+		d->SetName("c05-sentinel!s");
 		d->SetPackage("_api");
 		d->SetAuthor("a");
-		d->SetComment("0");
-		d->SetStartTime(100);
-		d->SetEndTime(200);
+		d->SetComment("sentinel");
+		d->SetStartTime(1);
+		d->SetEndTime(1e15);
 		d->SetFixed(true);
 		d->Register();
 		d->OnAllConfigLoaded();
 		d->PreActivate();
 		d->Activate(true);
-		g_Ids.insert(0);
+		d->SetAuthority(true);
+		g_Sentinel = d;
+		TakeStartTimerFired();
 		g_Events.clear();
 	}
 
